@@ -5,7 +5,8 @@ import Casm.Proofs.ExprLemmas
 # C05 — expressions compute exact unbounded-integer mathematics with tracked sizes
 
 Theorems only, about `Casm.Model.{Literal,ExprParse,ExprEval,Expr,Bits}`.
-"Inverted slice bounds" is read as `hi + 1 < lo` (`x[k-1:k]` is the empty slice, size 0).
+"Inverted slice bounds" is `hi < lo` — also `x[k-1:k]` (finding F50, repaired: the code compared after adding one to the upper
+bound, and an earlier version of this file had adopted that reading); an upper bound of 2^64 − 1 is out of range (F49).
 -/
 namespace Casm.C05
 
@@ -287,6 +288,30 @@ theorem le_requires_byte_multiple (b : BI) (s : Nat) (h : b.size = some s) (hs :
 
 example : evalBuiltin "le" [.int ⟨0x1234, some 16⟩] = .ok (.int ⟨0x3412, some 16⟩) := by decide
 example : evalBuiltin "le" [.int ⟨0xabcdef, some 24⟩] = .ok (.int ⟨0xefcdab, some 24⟩) := by decide
+
+/-- **the bounds of `x[hi:lo]` are checked as written**: once the three operands have definite values, the slice is an
+    error when `hi < lo` (inverted, also by one) or when `hi + 1` is no `usize`; otherwise it is the bits `hi … lo` of `x` -/
+theorem slice_bounds_are_checked (env : EvalEnv) (c c1 c2 c3 : ECtx) (hi lo inner : Expr) (iv hv lv : Value) (x : BI) (h l : Nat)
+    (h1 : eval env c inner = .ok (iv, c1)) (hp1 : iv.shouldPropagate = false) (hx : iv.getBigint = some x)
+    (h2 : eval env c1 hi = .ok (hv, c2)) (hp2 : hv.shouldPropagate = false)
+    (h3 : eval env c2 lo = .ok (lv, c3)) (hp3 : lv.shouldPropagate = false)
+    (hh : expectUsize hv = .ok h) (hl : expectUsize lv = .ok l) :
+    eval env c (.slice hi lo inner) =
+      if h < l then .error "invalid slice range"
+      else if h + 1 ≥ USIZE_MAX1 then .error outOfRange
+      else (checkedSlice x (h + 1) l).map (fun b => (.int b, c3)) := by
+  rw [eval]
+  simp only [h1, hp1, hx, h2, hp2, h3, hp3, hh, hl, Bool.false_eq_true, if_false]
+
+/-- hence an inverted range is an error, by one or by many -/
+theorem slice_inverted_by_one_is_an_error (env : EvalEnv) (c c1 c2 c3 : ECtx) (hi lo inner : Expr) (iv hv lv : Value) (x : BI) (l : Nat)
+    (h1 : eval env c inner = .ok (iv, c1)) (hp1 : iv.shouldPropagate = false) (hx : iv.getBigint = some x)
+    (h2 : eval env c1 hi = .ok (hv, c2)) (hp2 : hv.shouldPropagate = false)
+    (h3 : eval env c2 lo = .ok (lv, c3)) (hp3 : lv.shouldPropagate = false)
+    (hh : expectUsize hv = .ok l) (hl : expectUsize lv = .ok (l + 1)) :
+    eval env c (.slice hi lo inner) = .error "invalid slice range" := by
+  rw [slice_bounds_are_checked env c c1 c2 c3 hi lo inner iv hv lv x l (l + 1) h1 hp1 hx h2 hp2 h3 hp3 hh hl]
+  simp
 
 /-! ## precedence: the table the parser is generated over is the documented one -/
 
